@@ -345,7 +345,7 @@ class PosBase(np.ndarray):
 
     def __setattr__(self, key, value):
         self.clear_cache()  # Clear cache if any attributes change
-        if key in self._attributes():
+        if key in self._attributes() or key == "ref_pos":
             prev_attr_value = getattr(self, key, None)
             if prev_attr_value is not None:
                 try:
